@@ -243,13 +243,13 @@ def batch(case, wctx):
 
 def run(ctx):
     quick = ctx.tier == "quick"
-    n = 120 if quick else 2400
+    n = 120 if quick else 1600
     ctx.rule = ("pairs of tasks differing in one aspect (value mutation from vp.gen_values; function body/default/"
                 "lambda/closure; workflow-constructor closure; shell argstr/position/sep/formatter/flag/executable/"
                 "inputs; file content), each run fresh and in both orders into a shared cache root; non-trivial = the "
                 "two fresh outputs differ; distinct = distinct pair descriptions")
     cases = [{"lo": i, "hi": min(n, i + PER)} for i in range(0, n, PER)]
-    ctx.record_all(ctx.pmap("vp.props.c06:batch", cases, nproc=8 if quick else 16, timeout=170 if quick else 1700))
+    ctx.record_all(ctx.pmap("vp.props.c06:batch", cases, nproc=8 if quick else 16, timeout=600 if quick else 2400))
     ctx.assumptions = ["'what executing now would return' = the same task submitted into a fresh cache root (and the "
                        "direct function call for python tasks)", "module globals referenced by a function body are not "
                        "varied (the statement names body and closure only)"]
